@@ -18,6 +18,7 @@ package main
 
 import (
 	"fmt"
+	"reflect"
 	"sort"
 	"strings"
 
@@ -37,6 +38,29 @@ type lazyTarget struct {
 	id   string
 	own  bool // the message type itself has lazy fields and a lazy-capable (opaque) implementation
 	lazy []protoreflect.FieldDescriptor
+	raw  bool // Marshal of this type is deterministic without the option (no maps, no extensions reachable)
+}
+
+// lazyRawOK: no map field and no extension range reachable from md.
+func lazyRawOK(md protoreflect.MessageDescriptor, seen map[protoreflect.FullName]bool) bool {
+	if seen[md.FullName()] {
+		return true
+	}
+	seen[md.FullName()] = true
+	if md.ExtensionRanges().Len() > 0 {
+		return false
+	}
+	fds := md.Fields()
+	for i := 0; i < fds.Len(); i++ {
+		fd := fds.Get(i)
+		if fd.IsMap() {
+			return false
+		}
+		if sub := fd.Message(); sub != nil && !lazyRawOK(sub, seen) {
+			return false
+		}
+	}
+	return true
 }
 
 // ---------------------------------------------------------------- inputs
@@ -533,6 +557,15 @@ func lazyOne(c *Ctx, t *lazyTarget, b []byte, second []byte, what string, fixed 
 	}
 	c.Stat("verdict_" + cE)
 	if (cL == "ok") != (cE == "ok") {
+		effLim := limit
+		if effLim == 0 {
+			effLim = protowire.DefaultRecursionLimit
+		}
+		if cL == "ok" && cE == "e2" && dectotMapWtAtLimit(t.md, b, effLim-1) {
+			c.Known("FWB4", "C17", "a map field with a non-LEN wire type at the recursion limit inside a lazy field")
+			c.Stat("known_FWB4")
+			return
+		}
 		fail("Unmarshal verdicts differ: lazy " + cL + ", eager " + cE)
 		return
 	}
@@ -549,6 +582,7 @@ func lazyOne(c *Ctx, t *lazyTarget, b []byte, second []byte, what string, fixed 
 			fail("strict Unmarshal verdicts differ: lazy " + sL + ", eager " + sE)
 		}
 	}
+	lazyCase(c, t, b, limit, cL, sL)
 	if cE != "ok" {
 		return
 	}
@@ -627,6 +661,50 @@ func lazyOne(c *Ctx, t *lazyTarget, b []byte, second []byte, what string, fixed 
 	c.Stat("scripts_equal")
 }
 
+// lazyCase emits the model-compared observation of one input: the lazy verdicts, Marshal of the
+// untouched message (the retained bytes of still-lazy fields) and the dump after reading everything.
+func lazyCase(c *Ctx, t *lazyTarget, b []byte, limit int, cL, sL string) {
+	if !t.own || (limit != 0 && !msgDepthExact(t.mt)) {
+		// the model describes a message type whose own struct retains lazy fields
+		return
+	}
+	if sL == "ok" || sL == "e4" {
+		// the fast path's initialized shortcut (finding FWB5) is outside the model
+		if m, cl := lazyDecode(t.mt, b, true, true, limit); cl == "ok" && dectotFWB5Class(m, 50) {
+			c.Stat("case_skipped_FWB5")
+			return
+		}
+	}
+	if t.id == "" {
+		t.id = msgSchemaOf(c, t.md)
+	}
+	lim := limit
+	if lim == 0 {
+		lim = protowire.DefaultRecursionLimit
+	}
+	in := []string{t.id, HexN(uint64(lim)), HexB(b), Tok(t.raw)}
+	if cL != "ok" {
+		c.Case("lazy", "lz", in, []string{cL})
+		return
+	}
+	defer func() {
+		if r := recover(); r != nil {
+			c.PropFail("C17", fmt.Sprintf("panic while observing the lazily decoded message (%s): %v", t.md.FullName(), r), HexB(b))
+		}
+	}()
+	m, _ := lazyDecode(t.mt, b, false, true, limit)
+	raw := "-"
+	if t.raw {
+		out, err := proto.MarshalOptions{AllowPartial: true}.Marshal(m.Interface())
+		if err != nil {
+			raw = "err"
+		} else {
+			raw = HexB(out)
+		}
+	}
+	c.Case("lazy", "lz", in, append([]string{cL, sL, raw}, msgDump(m)...))
+}
+
 func lazyShort(toks []string) string {
 	s := strings.Join(toks, " ")
 	if len(s) > 300 {
@@ -675,6 +753,50 @@ func lazyCorpus(c *Ctx) {
 			}
 		}
 	}
+	if t := find("opaque.lazy_tree.Node"); t != nil {
+		// FWB6: 10500 levels through the lazy field with RecursionLimit 30000: forcing restarts the
+		// counter at the default limit, fails, and the error is dropped
+		levels := 10500
+		size := make([]int, levels+1)
+		size[levels] = 2
+		for i := levels - 1; i >= 0; i-- {
+			size[i] = 2 + protowire.SizeBytes(size[i+1])
+		}
+		var b []byte
+		for i := 0; i < levels; i++ {
+			b = protowire.AppendTag(b, 99, protowire.BytesType)
+			b = protowire.AppendVarint(b, uint64(size[i+1]))
+		}
+		b = append(b, 0x08, 0x05)
+		depth := func(nolazy bool) (d int, err error) {
+			defer func() {
+				if r := recover(); r != nil {
+					err = fmt.Errorf("panic: %v", r)
+				}
+			}()
+			m := t.mt.New()
+			if err := (proto.UnmarshalOptions{RecursionLimit: 30000, NoLazyDecoding: nolazy}).Unmarshal(b, m.Interface()); err != nil {
+				return -1, err
+			}
+			fd := t.md.Fields().ByNumber(99)
+			for m.Has(fd) {
+				m = m.Get(fd).Message()
+				d++
+			}
+			return d, nil
+		}
+		dE, errE := depth(true)
+		dL, errL := depth(false)
+		switch {
+		case errE != nil || errL != nil:
+			c.PropFail("C17", fmt.Sprintf("FWB6 witness: eager %v / lazy %v", errE, errL))
+		case dE != dL:
+			c.Known("FWB6", "C17", "forcing a lazy field restarts the recursion counter at the default limit and drops the error")
+			c.Stat("known_FWB6")
+		default:
+			c.Stat("FWB6_witness_passes")
+		}
+	}
 	if t := find("opaque.goproto.proto.testeditions.TestRequiredLazy"); t != nil {
 		before := c.stats["known_FWB2"]
 		for i := 0; i < 4; i++ {
@@ -698,7 +820,13 @@ func famLazy(c *Ctx) {
 		if _, ok := mt.(*impl.MessageInfo); !ok {
 			continue
 		}
-		t := &lazyTarget{mt: mt, md: md}
+		t := &lazyTarget{mt: mt, md: md, raw: lazyRawOK(md, map[protoreflect.FullName]bool{})}
+		if rt := reflect.TypeOf(mt.New().Interface()); rt.Kind() == reflect.Ptr && rt.Elem().Kind() == reflect.Struct {
+			_, t.own = rt.Elem().FieldByName("XXX_lazyUnmarshalInfo")
+		}
+		if t.own {
+			c.Stat("lazy_capable_types")
+		}
 		fds := md.Fields()
 		for i := 0; i < fds.Len(); i++ {
 			if msgIsLazyField(fds.Get(i)) {
